@@ -11,7 +11,8 @@ RULE = ("synthetic files over all layout classes/2D/irregular x in-range ops of 
         "compared with the model's fetch list (coalesced sets) and judged by the property's predicate: every fetched byte in "
         "a 4 KiB block holding a requested sample, none outside the data section, none twice, every needed block touched "
         "when cold; open reads header blocks only; structured header regeneration costs 4 bytes per stored array; preload "
-        "fetches the data section once")
+        "fetches the data section once"
+        "; K: Model/HeaderReads.run vs the range reads of real header / tracefield histories")
 
 
 def header_and_open_io(ctx, fi, rng, model=None):
@@ -98,6 +99,10 @@ def run(ctx):
                     s.close()
     finally:
         model.close()
+    # K: the header-read state machine (Model/HeaderReads): the range reads every header / tracefield look-up issues (four
+    # bytes per stored array on structured files; whole arrays, the mask once, nothing twice on the others)
+    from . import c15
+    c15.header_histories(ctx, n_quick=12, n_thorough=200, tag='c07-headers')
 
 
 def replay(ctx, rp):
